@@ -403,6 +403,14 @@ pub fn grid_types(rule: Option<&str>, is_enum: bool) -> Vec<TypeM> {
             out.push(TypeM { name: format!("{}{}x{}", if is_enum { "En" } else { "St" }, fi, i), is_enum, rule: rule.map(String::from), items, container: CONTAINER_FORMS[(fi + i) % CONTAINER_FORMS.len()].to_string() });
         }
     }
+    // later addition (appended): variant identifiers with an underscore inside, which serde's
+    // variant rules treat differently from its field rules (`Utf_8` is "utf_8" under camelCase)
+    if is_enum {
+        for (i, id) in ["Utf_8", "X_Custom", "Mixed_Case_Name", "A_b"].iter().enumerate() {
+            let items = vec![make_item(id, "none", "", 0), make_item("Keep", "none", "", 1)];
+            out.push(TypeM { name: format!("EnLate{}", i), is_enum, rule: rule.map(String::from), items, container: CONTAINER_FORMS[i % CONTAINER_FORMS.len()].to_string() });
+        }
+    }
     out
 }
 
